@@ -319,6 +319,35 @@ def cmp_atom(op, a, b):
     return SymEval(None).arith(op.capitalize(), a, b)
 
 
+def build_match(s, arms, guarded=False):
+    """normal form of `match s { pat_i => v_i }` for an opaque scrutinee (arms: [(pattern key text, value)]):
+    - arms that are tuples of equal length distribute: match s {p => (a, b)} = (match s {p => a}, match s {p => b});
+    - when every arm computes the same function of its own payload (match r { Ok(o) => f(o), Err(o) => f(o) }) the result is
+      f(either_payload(s));
+    - match opt { Some(v) => v, None => d } is opt.unwrap_or(d)."""
+    arms = list(arms)
+    vals = [v for _, v in arms]
+    if not guarded and arms and all(isinstance(v, tuple) and len(v) == 2 and v[0] == "tuple" for v in vals) and len({len(v[1]) for v in vals}) == 1 \
+            and len(vals[0][1]) > 0:
+        return ("tuple", [build_match(s, [(k, v[1][i]) for k, v in arms]) for i in range(len(vals[0][1]))])
+    if not guarded and len(arms) >= 2 and isinstance(s, Poly) and all(k.startswith("('") for k, _ in arms):
+        p0 = single_atom(app("payload0", s))
+        ep = app("either_payload", s)
+        try:
+            reps = [replace_atom(v, p0, ep) if isinstance(v, (Poly, tuple, list)) else v for v in vals]
+            if all(vkey(r) == vkey(reps[0]) for r in reps[1:]):
+                return reps[0]
+        except Exception:
+            pass
+    if not guarded and len(arms) == 2 and isinstance(s, Poly):
+        by = {k: v for k, v in arms}
+        some = [k for k in by if k.startswith("('Some'")]
+        none = [k for k in by if "None" in k and not k.startswith("('Some'")]
+        if len(some) == 1 and len(none) == 1 and by[some[0]] == app("payload0", s):
+            return app("std::option::Option::<T>::unwrap_or", s, by[none[0]])
+    return app("match", s, tuple(arms))
+
+
 def canon_cond(c, pol=True, total=False):
     """canonical (condition, polarity): not(x) unfolds, ne -> eq with flipped polarity (also for overloaded ==/!=), and for
     totally ordered operands (total=True: integers) le(a,b) -> lt(b,a) with flipped polarity"""
@@ -818,14 +847,7 @@ class SymEval:
             except Unsupported:
                 pass
             arms.append((repr(pat_key(a["pat"])), self.eval(a["body"], e2)))
-        # match opt { Some(v) => v, None => d }  is  opt.unwrap_or(d)
-        if len(arms) == 2 and isinstance(s, Poly):
-            by = {k: v for k, v in arms}
-            some = [k for k in by if k.startswith("('Some'")]
-            none = [k for k in by if "None" in k and not k.startswith("('Some'")]
-            if len(some) == 1 and len(none) == 1 and by[some[0]] == app("payload0", s) and not any("guard" in a for a in n["arms"]):
-                return app("std::option::Option::<T>::unwrap_or", s, by[none[0]])
-        return app("match", s, tuple(arms))
+        return build_match(s, arms, guarded=any("guard" in a for a in n["arms"]))
 
     def call_fn(self, path, inst, args, n, env):
         base = path.rsplit("::", 1)[-1] if path else "?"
